@@ -30,6 +30,16 @@ ALIASES = ["m", "n", "q", "lib"]
 
 
 # --------------------------------------------------------------- the model
+import re as _re
+
+_REF = _re.compile(r"^(?P<base>[A-Za-z_][\w.]*)(?P<op>[*+?])?(?:\[(?P<sep>[\w.]+)\])?$")
+
+
+def split_ref(ref):
+    """'m.A*[T]' -> ('m.A', '*', 'T')"""
+    m = _REF.match(ref)
+    return m.group("base"), m.group("op") or "", m.group("sep")
+
 def file_path(f):
     return f["dir"] + f["name"] + ".pg" if f["dir"] else f["name"] + ".pg"
 
@@ -174,12 +184,21 @@ class Flat:
             for alt in payload:
                 out = []
                 for ref in alt:
-                    r = self.resolve(s[1], ref)
+                    base, op, sep = split_ref(ref)
+                    r = self.resolve(s[1], base)
                     if r is None:
                         return None
-                    out.append(self.flat_name(r))
+                    name = self.flat_name(r) + op
                     if r not in seen:
                         todo.append(r)
+                    if sep:
+                        rs = self.resolve(s[1], sep)
+                        if rs is None:
+                            return None
+                        name += "[%s]" % self.flat_name(rs)
+                        if rs not in seen:
+                            todo.append(rs)
+                    out.append(name)
                 alts.append(out)
             rules.append((self.flat_name(s), alts))
         start = self.flat_name(root_syms[0])
@@ -198,6 +217,27 @@ def d13(flat):
     for (tfi, _), (_, ofi, qn) in flat.ovmap.items():
         if len(flat.all_paths[tfi]) >= 2:
             return True
+    return False
+
+
+def d19(case, flat):
+    """finding D19: helper rules of the repetition sugar in multi-file grammars
+    are named by the base symbol's qualified name plus the separator's *local*
+    name and are created per referencing path"""
+    for fi, f in enumerate(case["files"]):
+        for _, alts in f["rules"]:
+            for alt in alts:
+                for ref in alt:
+                    base, op, sep = split_ref(ref)
+                    if not op:
+                        continue
+                    if sep:
+                        return True            # collision / overridden separator
+                    if len(flat.all_paths[fi]) >= 2:
+                        return True            # helpers duplicated per path
+                    tgt = flat.follow(fi, base.split("."))
+                    if tgt is not None and len(flat.all_paths[tgt[0]]) >= 2:
+                        return True
     return False
 
 
@@ -269,6 +309,9 @@ def run_case(case, ctx):
                 f.write(txt)
         root = os.path.join(tmp, file_path(case["files"][0]))
         is_d13 = d13(flat)
+        is_d19 = bool(case.get("sugar")) and d19(case, flat)
+        if is_d19:
+            ctx.label("sugar helper naming across files (D19 class)")
         if case.get("pin"):
             # pinned corpus of the D13 class: the recorded behaviour is required
             # exactly, so another defect in the same class is still reported
@@ -307,6 +350,9 @@ def run_case(case, ctx):
         flat_text, n_rules, n_terms, texts = built
         info0["flattened"] = flat_text
         if gm is None:
+            if is_d19:
+                ctx.known("D19", "modular-grammar-rejected", error=str(err)[:200], **info0)
+                return
             if is_d13:
                 ctx.known("D13", "modular-grammar-rejected", error=str(err)[:200], **info0)
                 return
@@ -316,12 +362,17 @@ def run_case(case, ctx):
         except Exception as e:
             ctx.fail("flattener-produced-invalid-grammar (harness)", error=repr(e)[:200], **info0)
         # ---- symbol sets: each file contributes its rules once -------------
+        if case.get("sugar"):
+            # helper rules of the repetition sugar count on both sides
+            n_rules = len([k for k in gf.nonterminals if k != "S'"])
         nts = [k for k in gm.nonterminals if k != "S'"]
         tms = [k for k in gm.terminals if k not in ("EMPTY", "STOP")]
         # terminals declared in the root file are part of the grammar even when unused
         slack = len(case["files"][0]["terms"])
         if len(nts) != n_rules or not (n_terms <= len(tms) <= n_terms + slack):
-            if is_d13:
+            if is_d19:
+                ctx.known("D19", "symbol-sets-differ", **info0)
+            elif is_d13:
                 ctx.known("D13", "symbol-sets-differ", **info0)
             else:
                 ctx.fail("symbol-sets-differ-from-flattened-grammar", nonterminals=sorted(nts), terminals=sorted(tms),
@@ -349,7 +400,9 @@ def run_case(case, ctx):
         lm, em = mk_lr(pgl.Grammar.from_file(root))
         lf, ef = mk_lr(pgl.Grammar.from_string(flat_text))
         if (lm is None) != (lf is None):
-            if is_d13:
+            if is_d19:
+                ctx.known("D19", "lr-construction-differs", **info0)
+            elif is_d13:
                 ctx.known("D13", "lr-construction-differs", **info0)
             else:
                 ctx.fail("lr-construction-differs", modular=em, flattened=ef, **info0)
@@ -361,6 +414,8 @@ def run_case(case, ctx):
         ctx.label("shape:" + shape)
         if flat.ovmap:
             ctx.label("with-override")
+        if case.get("sugar"):
+            ctx.label("with-sugar-on-qualified-references")
         if is_d13:
             ctx.label("override-target-reachable-by-two-paths (D13 class)")
         dead = set()
@@ -375,6 +430,9 @@ def run_case(case, ctx):
                         dead.add(who)
                         continue
                     if a != b:
+                        if is_d19:
+                            ctx.known("D19", "modular-differs-from-flattened", parser=who, input=text, **info0)
+                            continue
                         if is_d13:
                             ctx.known("D13", "modular-differs-from-flattened", parser=who, input=text, **info0)
                             continue
@@ -434,12 +492,22 @@ def cases(draw):
             for (ti, alias) in files[fi]["imports"]:
                 out += ["%s.%s" % (alias, r) for r in refs_from(ti, depth + 1)]
         return out
+    sugar = draw(st.integers(0, 2)) == 0      # repetition / optional sugar on (qualified) references
     for i, f in enumerate(files):
         pool = refs_from(i)
         for rn in f["rule_names"]:
             alts = []
             for _ in range(draw(st.integers(1, 2))):
-                alts.append(draw(st.lists(st.sampled_from(pool), min_size=1, max_size=3)))
+                alt = draw(st.lists(st.sampled_from(pool), min_size=1, max_size=3))
+                if sugar:
+                    for k in range(len(alt)):
+                        op = draw(st.sampled_from(["", "", "", "*", "+", "?"]))
+                        if op:
+                            alt[k] += op
+                            tn_ = [n for n, _ in f["terms"]]
+                            if op != "?" and draw(st.integers(0, 2)) == 0:
+                                alt[k] += "[%s]" % draw(st.sampled_from(tn_))
+                alts.append(alt)
             # keep rules productive: one alternative of terminals only
             tn = [n for n, _ in f["terms"]]
             alts.append([draw(st.sampled_from(tn))])
@@ -457,7 +525,8 @@ def cases(draw):
                 files[fi]["rules"].append((tgt, [[draw(st.sampled_from(tn))], [tn[0], tn[0]]]))
     for f in files:
         del f["rule_names"]
-    return {"files": files, "shape": shape, "max_len": 4 if tcount[0] <= 4 else 3}
+    return {"files": files, "shape": shape, "sugar": sugar,
+            "max_len": (4 if tcount[0] <= 4 else 3) - (1 if sugar else 0)}
 
 
 def strat(tier):
